@@ -28,7 +28,31 @@ def tex_line(s, out):
     return "tex|%s|%s|%s|%s" % (cps(s), cps(out), ",".join(map(str, marks)), ";".join(dec))
 
 
-POOLS = ["abc xyz 0189 .,;", "\\{}$&#^_~%", "éàüñçÅøßšžőűęą", "éäôűçñ", "… ½²ﬁ™ǆ", "漢字かな한글", "😀🎉👍🏽", "̣̱֑̀́ͅ", "ÅΩKﬃ", "ǖṩệở"]
+def tex_doc(texts):
+    """a TikZ export (text only, no LaTeX run) of a numeric timeline with these label texts and explicit label sizes; parsed"""
+    from labella.timeline import TimelineTex
+    from labella.scale import LinearScale
+    from parse_export import parse_tikz
+    data = [{"time": float(3 * k + 1), "width": 20 + (k % 3), "text": t} if t is not None else {"time": float(3 * k + 1), "width": 20} for k, t in enumerate(texts)]
+    tl = TimelineTex(data, options={"scale": LinearScale(), "direction": "right", "initialHeight": 80 + 30 * len(texts), "showTicks": False})
+    return parse_tikz(tl.export())
+
+
+def short_names(n):
+    """A, B, …, Z, AA, AB, … — the enumeration the property prescribes, computed here independently of the library"""
+    out, k = [], 1
+    import itertools, string
+    while len(out) < n:
+        for t in itertools.product(string.ascii_uppercase, repeat=k):
+            out.append("".join(t))
+            if len(out) == n:
+                break
+        k += 1
+    return out
+
+
+LINEBREAKS = set("\n\r\x0b\x0c\x1c\x1d\x1e\x85\u2028\u2029")
+POOLS = ["abc xyz 0189 .,;", " \u00a0\u2009\u3000\u202f  a", "\\{}$&#^_~%", "éàüñçÅøßšžőűęą", "éäôűçñ", "… ½²ﬁ™ǆ", "漢字かな한글", "😀🎉👍🏽", "̣̱֑̀́ͅ", "ÅΩKﬃ", "ǖṩệở"]
 
 
 def run_c19(tier, seed, rep, only_prop=False, scale=1):
@@ -60,6 +84,22 @@ def run_c19(tier, seed, rep, only_prop=False, scale=1):
         k = rng.randint(0, 12)
         s = "".join(rng.choice(rng.choice(POOLS)) if rng.random() < 0.9 else chr(rng.choice([rng.randint(0, 0x2FF), rng.randint(0x300, 0x36F), rng.randint(0x1E00, 0x1EFF), rng.randint(0, 0x10FFFF)])) for _ in range(k))
         add(s, "random")
+    # the same through the DOCUMENT: label texts given to a TikZ timeline must arrive in its \\def\\text.. lines as uni2tex of exactly that text
+    for _ in range(common.count(tier, 150, 2500) * scale):
+        texts = []
+        for _k in range(rng.randint(1, 8)):
+            kk = rng.randint(1, 10)
+            t = "".join(rng.choice(rng.choice(POOLS)) for _ in range(kk))
+            texts.append("".join(c for c in t if c not in LINEBREAKS) or "x")
+        try:
+            g = tex_doc(texts)
+        except Exception as e:
+            rep.prop_fail.append(("TikZ export raised %s for these label texts: %s" % (type(e).__name__, e), {"case": {"kind": "doc", "texts": [[ord(c) for c in t] for t in texts], "index": 0}})); continue
+        for k, (t, out) in enumerate(zip(texts, g["texts"])):
+            meta = {"kind": "doc", "texts": [[ord(c) for c in x] for x in texts], "index": k, "input_cps": [ord(c) for c in t]}
+            if out is None or out.startswith("<unexpected"):
+                rep.prop_fail.append(("a label text did not arrive in the TikZ document (no \\def\\text for it)", {"case": meta})); continue
+            lines.append(tex_line(t, out)); metas.append(meta)
     answers = drive(lines)
     for line, meta, ans in zip(lines, metas, answers):
         f = fields(ans)
@@ -70,11 +110,39 @@ def run_c19(tier, seed, rep, only_prop=False, scale=1):
             rep.model_fail = True
         if f["ascii"] != "ok" or f["back"] == "fail":
             rep.prop_fail.append(("C19 predicate false on the implementation's output: " + ans, payload))
+        elif f["same"] != "ok" and meta["kind"] == "doc":
+            rep.prop_fail.append(("C19: the text of a label in the TikZ document is not the conversion of the text that was supplied: " + ans, payload))
         elif f["same"] != "ok" and not only_prop:
             rep.corr_fail.append(("uni2tex output differs from the model: " + ans, payload))
 
 
+def doc_names_c20(rep):
+    """C20 at the level of the document: the names a TikZ export actually uses for the colours, texts, dots and boxes of its labels are the
+    prescribed enumeration — pairwise different — for documents with more labels than there are letters, too"""
+    for n in (1, 2, 26, 27, 28, 52, 53, 80, 130):
+        meta = {"kind": "docnames", "n": n}
+        try:
+            g = tex_doc(["t%d" % k for k in range(n)])
+        except Exception as e:
+            rep.prop_fail.append(("TikZ export of %d labels raised %s: %s" % (n, type(e).__name__, e), {"case": dict(meta, family="dots")})); continue
+        want = short_names(n)
+        fams = {"dots": g.get("_dotnames", []), "boxes": g.get("_boxnames", []), "links": g.get("_linknames", []), "texts": sorted(g["_textdefs"], key=lambda x: (len(x), x))}
+        for fam, got in fams.items():
+            rep.case("docnames-%d-%s" % (n, fam), nontrivial=n > 26)
+            rep.count("document-level names")
+            if got != want:
+                rep.prop_fail.append(("C20: the %s of a TikZ document with %d labels are not named A, B, …, Z, AA, AB, … (first difference at label %d: %r)" % (
+                    fam, n, next((i for i, (a, b) in enumerate(zip(got, want)) if a != b), min(len(got), len(want))), got[:3] + got[25:29]), {"case": dict(meta, family=fam)}))
+        cols = {}
+        for (kind, name) in g["_colors"]:
+            cols.setdefault(kind, []).append(name)
+        for kind, names in cols.items():
+            if sorted(names, key=lambda x: (len(x), x)) != want:
+                rep.prop_fail.append(("C20: the %s colour names of a TikZ document with %d labels are not the prescribed enumeration" % (kind, n), {"case": dict(meta, family="dots")}))
+
+
 def run_c20(tier, seed, rep, only_prop=False, scale=1):
+    doc_names_c20(rep)
     from labella.utils import int2name, hex2rgb, hex2rgbstr, hex2html
     lines, metas = [], []
     N = 1000000 if tier == "quick" else 3000000
@@ -125,7 +193,18 @@ def run(pid, tier, seed, replay=None):
     if replay:
         with open(replay) as fh:
             m = json.load(fh)["case"]
-        if pid == "C19":
+        if pid == "C19" and m["kind"] == "doc":
+            texts = ["".join(chr(c) for c in t) for t in m["texts"]]
+            out = tex_doc(texts)["texts"][m["index"]]
+            if out is None or out.startswith("<unexpected"):
+                print("replay: the label text did not arrive in the document"); print("VIOLATION property=%s replay=%s" % (pid, replay)); return 1
+            line = tex_line(texts[m["index"]], out)
+        elif pid == "C20" and m["kind"] == "docnames":
+            g = tex_doc(["t%d" % k for k in range(m["n"])])
+            fam = {"dots": g.get("_dotnames", []), "boxes": g.get("_boxnames", []), "links": g.get("_linknames", []), "texts": sorted(g["_textdefs"], key=lambda x: (len(x), x))}[m["family"]]
+            ok = fam == short_names(m["n"])
+            print("replay:", "names ok" if ok else "names differ: %s" % fam[:40]); print("VIOLATION property=%s replay=%s" % (pid, replay) if not ok else "replay: holds now"); return 0 if ok else 1
+        elif pid == "C19":
             from labella.tex import uni2tex
             s = "".join(chr(c) for c in m["input_cps"])
             line = tex_line(s, uni2tex(s))
